@@ -344,6 +344,13 @@ func init() {
 		"math/bits.Len16": bitsLen(16),
 		"math/bits.Len8":  bitsLen(8),
 		"unique.Make": uniqueMake,
+		"internal/bytealg.MakeNoZero": func(e *Engine, s *State, f *Frame, fn *ssa.Function, args []Value, retIdx int, advance bool) (Value, bool) {
+			n := args[0].(*Term)
+			return e.makeSlice(s, types.Typ[types.Uint8], n, n, "MakeNoZero@"+e.curPos(s)), true
+		},
+		"internal/abi.NoEscape": func(e *Engine, s *State, f *Frame, fn *ssa.Function, args []Value, retIdx int, advance bool) (Value, bool) {
+			return args[0], true
+		},
 		"errors.Is":   errorsIs,
 		"errors.As":   errorsAs,
 		"errors.Join": func(e *Engine, s *State, f *Frame, fn *ssa.Function, args []Value, retIdx int, advance bool) (Value, bool) {
